@@ -49,6 +49,7 @@ type EngCase struct {
 	Prog      Program `json:"prog"`
 	Pauses    int     `json:"pauses"` // C05: number of Pause/Continue pairs
 	HoldSteps int     `json:"hold_steps"`
+	Pausers   int     `json:"pausers,omitempty"` // C05: 2 = two goroutines pause the (parallel) engine at about the same time
 	Seed      uint64  `json:"seed"`
 	Decisions []int   `json:"decisions,omitempty"` // explicit schedule (replay / shrinking)
 }
@@ -86,6 +87,7 @@ type world struct {
 	startedPaused    int  // handler starts in the current pause
 	runDone          bool
 	ctlDone          bool
+	ctlsDone         int
 	pausesDone       int
 	savesWhilePaused int
 	phase            *kit.Violation
@@ -287,7 +289,12 @@ func runEngineWith(c *EngCase, ctl func(w *world), fair bool) (*world, *sched.Sc
 		s.Choose = fairChooser(s)
 	}
 
-	s.Finished = func() bool { return w.runDone && (ctl == nil || w.ctlDone) }
+	nctl := 0
+	if ctl != nil {
+		nctl = max(1, c.Pausers)
+	}
+
+	s.Finished = func() bool { return w.runDone && w.ctlsDone == nctl }
 
 	sched.Run(T, s, func(s *sched.Sched) {
 		// everything the goroutines block on (the engine's channels) has to be
@@ -313,10 +320,11 @@ func runEngineWith(c *EngCase, ctl func(w *world), fair bool) (*world, *sched.Sc
 			w.runDone = true
 		})
 
-		if ctl != nil {
-			s.Go("controller", func() {
+		for k := 0; k < nctl; k++ {
+			s.Go(fmt.Sprintf("controller%d", k), func() {
 				ctl(w)
-				w.ctlDone = true
+				w.ctlsDone++
+				w.ctlDone = w.ctlsDone == nctl
 			})
 		}
 	})
